@@ -220,8 +220,12 @@ def _run(row, tier, seed):
                 return tfd.Bernoulli(probs=kw["p"], dtype=jnp.bool_)
             return getattr(tfd, row["cls"])(**kw)
 
+        @jax.jit
+        def _oracle(params, v):
+            return jnp.sum(oracle_dist(params).log_prob(v))
+
         def oracle(params, v):
-            return float(np.sum(np.asarray(oracle_dist(params).log_prob(v), dtype=np.float64)))
+            return float(np.asarray(_oracle(params, v), dtype=np.float64))
 
         def mk_args(form, params, ss, const=False):
             ssv = Const(ss) if const else ss
@@ -236,7 +240,7 @@ def _run(row, tier, seed):
             return tr.get_choices().get_value()
 
         done = set()
-        jit_cache = {}
+        jit_cache, ops_cache = {}, {}
         for pt, ss, form in _combos(tier):
             if form not in row["forms"]:
                 form = row["forms"][0]
@@ -316,49 +320,55 @@ def _run(row, tier, seed):
             if pt == "A" and ctx.samples == []:
                 ctx.sample(dict(**where, value=np.asarray(v0), score=o0))
 
-            # (d) assess
-            ctx.ev((row["id"], pt, ss, form, "assess"), nontrivial=True)
-            out = guarded("assess", lambda: gf.assess(C.v(v1), args))
-            if out is not None:
-                sc, rv = out
-                if not close(sc, o1):
-                    fail("assess", "score", value=np.asarray(v1), expected=o1, actual=np.asarray(sc))
-                if not np.array_equal(np.asarray(rv), np.asarray(v1)):
-                    fail("assess", "retval", value=np.asarray(v1), retval=np.asarray(rv))
+            # (d)-(f) assess, importance (full constraint), update {new value, changed arguments, both} and the
+            # closure form of assess: ONE jitted bundle per (sample_shape, form, parameter shapes) - eager TFP
+            # log_prob of some families (BetaQuotient's hypergeometric loops) re-compiles on every call.
+            def ops(k1, k2, prm, prm2, va, vb, _form=form, _ss=ss):
+                a1, a2 = mk_args(_form, prm, _ss), mk_args(_form, prm2, _ss)
+                out = {}
+                sc, rv = gf.assess(C.v(vb), a1)
+                out["assess"] = dict(score=sc, retval=rv)
+                tr, w = gf.importance(k1, C.v(vb), a1)
+                out["importance"] = dict(weight=w, score=tr.get_score(), value=cval(tr))
+                tr_j, _ = gf.importance(k1, C.v(va), a1)
+                for uname, chm, adiff in (
+                    ("new_value", C.v(vb), Diff.no_change(a1)),
+                    ("new_args", C.n(), Diff.unknown_change(a2)),
+                    ("new_value_and_args", C.v(vb), Diff.unknown_change(a2)),
+                ):
+                    ntr, w, _rd, bwd = gf.update(k2, tr_j, chm, adiff)
+                    out["update:" + uname] = dict(value=cval(ntr), score=ntr.get_score(), weight=w)
+                ckw = dict(zip(names, prm)) if _form == "kw" else {}
+                cpos = tuple(prm) if _form == "pos" else ()
+                if _ss:
+                    ckw["sample_shape"] = _ss
+                out["closure_assess"] = dict(score=gf(*cpos, **ckw).assess(C.v(vb), ())[0])
+                return out
 
-            # (e) importance with a full constraint
-            ctx.ev((row["id"], pt, ss, form, "importance"), nontrivial=True)
-            out = guarded("importance", lambda: gf.importance(keys[1], C.v(v1), args))
-            if out is not None:
-                tr, w = out
-                if not close(w, o1):
-                    fail("importance", "weight", value=np.asarray(v1), expected=o1, actual=np.asarray(w))
-                if not close(tr.get_score(), o1):
-                    fail("importance", "score", value=np.asarray(v1), expected=o1, actual=np.asarray(tr.get_score()))
-                if not np.array_equal(np.asarray(cval(tr)), np.asarray(v1)):
-                    fail("importance", "value", value=np.asarray(v1), actual=np.asarray(cval(tr)))
-
-            # (f) update: new value / changed arguments / both      (trace tr_j: value v0 at args)
-            tr_j = guarded("importance", lambda: gf.importance(keys[1], C.v(v0), args)[0])
-            if tr_j is None:
+            jops = ops_cache.get((ss, form, pt == "C"))
+            if jops is None:
+                jops = ops_cache[(ss, form, pt == "C")] = jax.jit(ops)
+            res = guarded("bundle", lambda: jops(keys[1], keys[2], params, params2, v0, v1))
+            if res is None:
                 continue
-            for uname, chm, adiff, new_v, new_o in (
-                ("new_value", C.v(v1), Diff.no_change(args), v1, o1),
-                ("new_args", C.n(), Diff.unknown_change(args2), v0, o0b),
-                ("new_value_and_args", C.v(v1), Diff.unknown_change(args2), v1, o1b),
-            ):
-                nontriv = (differs or uname != "new_value") and math.isfinite(new_o)
-                ctx.ev((row["id"], pt, ss, form, "update", uname), nontrivial=nontriv)
-                out = guarded(f"update:{uname}", lambda: gf.update(keys[2], tr_j, chm, adiff))
-                if out is None:
-                    continue
-                ntr, w, _rd, bwd = out
-                if not np.array_equal(np.asarray(cval(ntr)), np.asarray(new_v)):
-                    fail(f"update:{uname}", "value", expected=np.asarray(new_v), actual=np.asarray(cval(ntr)))
-                if not close(ntr.get_score(), new_o):
-                    fail(f"update:{uname}", "score", value=np.asarray(new_v), expected=new_o, actual=np.asarray(ntr.get_score()))
-                if not close(w, new_o - o0):
-                    fail(f"update:{uname}", "weight", value=np.asarray(new_v), expected=new_o - o0, actual=np.asarray(w))
+            expect = {
+                "assess": dict(score=o1, retval=v1),
+                "importance": dict(weight=o1, score=o1, value=v1),
+                "update:new_value": dict(value=v1, score=o1, weight=o1 - o0),
+                "update:new_args": dict(value=v0, score=o0b, weight=o0b - o0),
+                "update:new_value_and_args": dict(value=v1, score=o1b, weight=o1b - o0),
+                "closure_assess": dict(score=o1),
+            }
+            for op, exp in expect.items():
+                nontriv = math.isfinite(exp.get("score", 0.0)) and (differs or op not in ("update:new_value",))
+                ctx.ev((row["id"], pt, ss, form, op), nontrivial=nontriv)
+                for field, e in exp.items():
+                    a = np.asarray(res[op][field])
+                    ok = np.array_equal(a, np.asarray(e)) if field in ("value", "retval") else close(a, e)
+                    if not ok:
+                        fail(op if op != "closure_assess" else "kw_vs_pos", field, expected=np.asarray(e), actual=a,
+                             value=np.asarray(v1), previous_value=np.asarray(v0))
+
 
             # (g) keyword == positional, closure call == direct call, Const-wrapped sample_shape == plain tuple:
             # the staged computations (jaxpr + constants) of `key -> (value, score)` must be identical, which
@@ -392,10 +402,6 @@ def _run(row, tier, seed):
             if ss:
                 kw["sample_shape"] = ss
             same_trace("kw_vs_pos", main, lambda k: tr_out(gf(*pos, **kw).simulate(k, ())), "closure")
-            scc = guarded("kw_vs_pos", lambda: gf(*pos, **kw).assess(C.v(v1), ())[0])
-            ctx.ev((row["id"], pt, ss, form, "closure_assess"), nontrivial=True)
-            if scc is not None and not close(scc, o1):
-                fail("kw_vs_pos", "score", what="closure assess", expected=o1, actual=np.asarray(scc))
             if ss:
                 same_trace("const_sample_shape", main, lambda k: tr_out(gf.simulate(k, mk_args(form, params, ss, const=True))), "Const")
 
